@@ -68,8 +68,13 @@ class C13Monitor(X.Monitor):
         if score is None:
             return
         ctx.probe("c13_scene_queries")
-        frames = manager.frame_results
+        frames = rec["delivered"]  # the frame results in the order the driver delivered them (own record)
         n_before = rec["n_frames"]
+        now = manager.frame_results
+        if len(now) != len(rec["frames_before"]) or any(a is not b for a, b in zip(now, rec["frames_before"])):
+            ctx.violate("C13", "scene_query_pure", "a scene query changed or re-ordered the manager's frame results", {}, index)
+        if len(frames) != len(rec["frames_before"]) or any(a is not b for a, b in zip(frames, rec["frames_before"])):
+            ctx.violate("C13", "history_is_delivery_order", "the manager's frame results are not the delivered results in delivery order", {}, index)
         self._check_dataset(ctx, lane, index, "get_scene_result")
         # scene_query_pure: asking twice gives the same numbers and leaves the history alone
         try:
@@ -264,8 +269,9 @@ class C05Monitor(X.Monitor):
         if st.result is None or not st.result.metrics_score.tracking_scores:
             return
         fr = st.result
-        frames = lane.manager.frame_results
-        prev = frames[-2].object_results if len(frames) >= 2 and frames[-1] is fr else []
+        mine = [s_.result for s_ in lane.steps if s_.result is not None and s_.manager_gen == st.manager_gen]
+        # st is already appended to lane.steps when monitors run
+        prev = mine[-2].object_results if len(mine) >= 2 and mine[-1] is fr else []
         labels = [l.value for l in st.crit.target_labels]
         gt_counts = {}
         for g in fr.frame_ground_truth.objects:
@@ -277,7 +283,7 @@ class C05Monitor(X.Monitor):
         score = rec["score"]
         if score is None or not score.tracking_scores:
             return
-        frames = manager.frame_results
+        frames = rec["delivered"]  # own record of the delivered results, in delivery order
         labels = [l.value for l in lane.config.target_labels]
         gt_counts = {}
         for fr in frames:
@@ -285,12 +291,11 @@ class C05Monitor(X.Monitor):
                 gt_counts[V.label_of(g)] = gt_counts.get(V.label_of(g), 0) + 1
         policy = lane.config.label_params["matching_label_policy"].value
         check_clear_scores(ctx, lane, index, score.tracking_scores, [[]] + [fr.object_results for fr in frames], gt_counts, labels, policy, "scene")
-        self._perfect_tracker(ctx, lane, manager, score, index)
+        self._perfect_tracker(ctx, lane, frames, score, index)
 
-    def _perfect_tracker(self, ctx, lane, manager, score, index):
+    def _perfect_tracker(self, ctx, lane, frames, score, index):
         """If every frame's results are exactly 'each critical GT paired with a same-label estimate at its own
         pose under one constant id', MOTA is 1 and nothing switches."""
-        frames = manager.frame_results
         if not frames:
             return
         track_of = {}
@@ -589,10 +594,15 @@ def check_looser_passfail(ctx, lane, max_twins=4):
     cand = [st for st in lane.steps if st.result is not None and st.pf_spec.get("thr") is not None and st.result.object_results]
     stride = max(1, math.ceil(len(cand) / max_twins)) if cand else 1
     for st in cand[::stride][:max_twins]:
-        for factor in (1.5, 4.0):
+        for factor in (1.5, 4.0, "round1", "round0"):
             op = copy.deepcopy(st.op)
             pf = copy.deepcopy(st.pf_spec)
-            pf["thr"] = [t * factor for t in pf["thr"]]
+            if factor == "round1":      # next value with one decimal, the way thresholds are usually written
+                pf["thr"] = [math.floor(t * 10.0 + 1.0) / 10.0 for t in pf["thr"]]
+            elif factor == "round0":    # next integer
+                pf["thr"] = [float(math.floor(t) + 1) for t in pf["thr"]]
+            else:
+                pf["thr"] = [t * factor for t in pf["thr"]]
             op["pf"] = pf
             op["crit"] = st.crit_spec
             ops = []
